@@ -7,9 +7,11 @@ pub mod args;
 pub mod bencode;
 pub mod json;
 pub mod lin;
+pub mod refudp;
 
 
 pub mod model;
+pub mod net;
 pub mod report;
 pub mod rng;
 pub mod srng;
